@@ -206,7 +206,7 @@ func (c *Chain) InitialClient() (*bsctypes.ClientState, *bsctypes.ConsensusState
 		Validators:      AddrBytes(c.M.InForce), // the set in force for block Start+1
 		RecentSigners:   recents,
 		ContractAddress: common.HexToAddress("0x00000000000000000000000000000000000071bC").Bytes(),
-		TrustingPeriod:  200,
+		TrustingPeriod:  20 * 365 * 24 * 3600, // seconds; the BSC client must not expire inside a run (expiry is C14)
 	}
 	cons := &bsctypes.ConsensusState{Timestamp: start.Time, Number: start.Height, Root: append([]byte{}, start.Root...)}
 	return cs, cons
